@@ -56,6 +56,8 @@ Digits(a)     == [neg |-> FALSE, ds |-> <<0>>, dp |-> 1] \* |a| = 0.d1..dn * 10^
 Bits(a)       == a    \* 16 hex digits
 ParseLit(t)   == "0"  \* ASCII digits with at most one point -> nearest double (ties to even) | "OVERFLOW"
 Rand(s, i)    == "0"  \* deterministic pseudo-random doubles
+RandInt(s, i, n) == 0 \* deterministic pseudo-random integer in 0..n-1
+SeedProp      == 1  \* the integer given by -Dverif.seed (VERIF_SEED)
 HalfwayText(a, bump) == <<48>>
 NFC(cps)      == cps
 NFD(cps)      == cps
